@@ -382,7 +382,7 @@ impl<'t, 'd, 'e> ValueGen<'t, 'd, 'e> {
 				MValue::BigDecimal { unscaled: gen_unscaled(t, 16, true), scale }
 			}
 			Kind::Duration => {
-				let mut g = |t: &mut Tape| match t.below(4) {
+				let g = |t: &mut Tape| match t.below(4) {
 					0 => 0u32,
 					1 => u32::MAX,
 					2 => t.byte() as u32,
